@@ -170,10 +170,11 @@ def gen(rnd):
     if pshape == "port":
         pport = rnd.choice([3128, 8080, 80])
     elif pshape == "cred":
-        user, pw = "alice", rnd.choice(["s3cret", "p:w", ""])
+        # (credentials are case-sensitive and go out exactly as written, percent escapes included)
+        user, pw = rnd.choice(["alice", "Alice", "ALICE", "svc%2Buser", "svc%2buser"]), rnd.choice(["s3cret", "p:w", "", "S3cret", "Pa%3Ass", "TOPSECRET"])
         pport = 3128
     elif pshape == "cred_nopw":
-        user = "bob"
+        user = rnd.choice(["bob", "Bob", "BOB_1"])
     elif pshape == "https_proxy":
         pscheme = "https"
     purl = "%s://%s%s%s" % (pscheme, ("%s%s@" % (user, ":" + pw if pw is not None else "")) if user else "", phost, "" if pport is None else ":%d" % pport)
